@@ -919,6 +919,13 @@ where
             if sz.outgoing_local_inputs > 8 || (sz.remotes.is_empty() && sz.outgoing_local_inputs > 0) {
                 out.hit("C18", "outgoing-local-inputs", &scen, &format!("peer {id}: {} frames of local inputs queued for sending", sz.outgoing_local_inputs));
             }
+            // inside the space of C18_session_buffers_bounded (nobody leaves, no delay change: all local players of a
+            // peer share one delay) nothing is left queued after a call: the theorem's OB, checked on the real session
+            let in_space = sc.cfg.expect.iter().any(|x| x == "nodisconnect")
+                && !sc.ops.iter().any(|o| matches!(o[0].as_str(), "delay" | "disc" | "kill"));
+            if in_space && sz.outgoing_local_inputs > 0 {
+                out.hit("C18", "outgoing-local-inputs-left", &scen, &format!("peer {id}: {} frames of local inputs still queued after the call (no delay change, nobody left)", sz.outgoing_local_inputs));
+            }
             if sz.local_checksum_history > 33 {
                 out.hit("C18", "checksum-history", &scen, &format!("peer {id}: {} local checksums remembered", sz.local_checksum_history));
             }
